@@ -396,11 +396,11 @@ package swap
 //@   requires own: forall b uint32 :: b != id ==> buyAmt != orderBuyAmt(pr, b) && buyAmt != orderSellAmt(pr, b) && sellAmt != orderBuyAmt(pr, b) && sellAmt != orderSellAmt(pr, b)
 //@   requires shape: buyAmt != orderSellAmt(pr, id) && sellAmt != orderBuyAmt(pr, id)
 //@   ensures result1 != nil
-//@   ensures [C14] unfilled: old(touched) && !old(orderUsed(pr, id)) && old(orderBuyAmt(pr, id).val != 0 && orderSellAmt(pr, id).val != 0) ==> result1.val == old(orderSellAmt(pr, id).val) && result0 == old(c1)
-//@   ensures [C14] untouched: !old(touched) ==> result1.val == old(sellAmt.val) && result0 == old(c1)
+//@   ensures [C14,C01] unfilled: old(touched) && !old(orderUsed(pr, id)) && old(orderBuyAmt(pr, id).val != 0 && orderSellAmt(pr, id).val != 0) ==> result1.val == old(orderSellAmt(pr, id).val) && result0 == old(c1)
+//@   ensures [C14,C01] untouched: !old(touched) ==> result1.val == old(sellAmt.val) && result0 == old(c1)
 //@   ensures [C14] usedup: old(touched) && (old(orderUsed(pr, id)) || old(orderBuyAmt(pr, id).val == 0 || orderSellAmt(pr, id).val == 0)) ==> result1.val == 0
 //@   ensures [C14,C01] reported: ledgerDelta(s.bus.checker, result0) == old(ledgerDelta(s.bus.checker, result0)) - result1.val || result1.val == 0
-//@   ensures [C14] nothingleft: old(touched) && !old(orderUsed(pr, id)) && old(orderBuyAmt(pr, id).val != 0 && orderSellAmt(pr, id).val != 0) ==> orderSellAmt(pr, id).val == 0 && orderBuyAmt(pr, id).val == 0
+//@   ensures [C14,C01] nothingleft: old(touched) && !old(orderUsed(pr, id)) && old(orderBuyAmt(pr, id).val != 0 && orderSellAmt(pr, id).val != 0) ==> orderSellAmt(pr, id).val == 0 && orderBuyAmt(pr, id).val == 0
 //@ # the owner recorded for an order (abstract view of the order book; ASSUMED to be what the getter returns)
 //@ ghost orderExists(id uint32) bool
 //@ ghost orderOwner(id uint32) types.Address
